@@ -436,7 +436,20 @@ func extractC19(c *ctx) (Facts, error) {
 				return true
 			})
 			facts["ignore_matches_on"] = key
-			facts["ignore_returns"] = c.c19Returns(lit.Body)
+			rets := c.c19Returns(lit.Body)
+			facts["ignore_returns"] = rets
+			// names of the handler's results: <outs>, <err> := h(msg)
+			m := c19ParamName(lit)
+			outsVar, errVar := "", ""
+			for _, st := range lit.Body.List {
+				if as, ok := st.(*ast.AssignStmt); ok && len(as.Lhs) == 2 && len(as.Rhs) == 1 && c.src(as.Rhs[0]) == h+"("+m+")" {
+					outsVar, errVar = c.src(as.Lhs[0]), c.src(as.Lhs[1])
+				}
+			}
+			// listed -> (outs, nil); other error -> (outs, err); success -> (outs, nil): outputs always kept
+			facts["ignore_returns_keep_outputs"] = outsVar != "" && len(rets) == 3 && rets[0] == "return "+outsVar+", nil" &&
+				rets[1] == "return "+outsVar+", "+errVar && rets[2] == "return "+outsVar+", nil"
+			facts["ignore_matches_on_pkg_errors_cause_text"] = key == "errors.Cause("+errVar+").Error()"
 		}
 	}
 	if fd, err := c.fn(mwDir+"ignore_errors.go", "", "NewIgnoreErrors"); err != nil {
@@ -456,6 +469,15 @@ func extractC19(c *ctx) (Facts, error) {
 			rets := c.c19Returns(lit.Body)
 			facts["breaker_returns"] = rets
 			facts["breaker_executes_handler_call"] = len(rets) == 2 && rets[0] == "return "+h+"("+m+")"
+			// out, err := cb.Execute(...); ... return result, err   with the same err
+			execErr := ""
+			for _, st := range lit.Body.List {
+				if as, ok := st.(*ast.AssignStmt); ok && len(as.Lhs) == 2 && len(as.Rhs) == 1 && strings.HasSuffix(c.src(as.Rhs[0].(ast.Node)), "})") &&
+					strings.Contains(c.src(as.Rhs[0]), ".Execute(") {
+					execErr = c.src(as.Lhs[1])
+				}
+			}
+			facts["breaker_returns_error_of_execute"] = execErr != "" && len(rets) == 2 && strings.HasSuffix(rets[1], ", "+execErr)
 		}
 	}
 
@@ -502,6 +524,8 @@ func extractC19(c *ctx) (Facts, error) {
 				return true
 			})
 			facts["retry_exit_condition"] = exit
+			facts["retry_exits_when_counter_exceeds_max_retries"] = strings.HasSuffix(exit, ".MaxRetries") && strings.Contains(exit, " > ")
+			facts["retry_exhausted_drops_outputs"] = strings.HasPrefix(rets[len(rets)-1], "return nil, ")
 		}
 	}
 
